@@ -5,7 +5,7 @@
 //!       attributes) is parsed in both views and what the public DOM API reports is recorded.
 //!   doc-attr-record --seed N --count K --out <ndjson>
 //!       seeded random abstract documents (longer literals, wider alphabet, nested entities, several
-//!       elements / ATTLISTs / attributes), rendered by the twin of AttrSurface.Render, observed the
+//!       elements / ATTLISTs / attributes), rendered by the twin of AttrNormSurface.Render, observed the
 //!       same way.
 //!   doc-attr-observe --in <ndjson of events or cases> --out <ndjson>
 //!       re-observe stored events (replay of a stored case).
@@ -275,7 +275,7 @@ fn replay(args: &[String]) -> i32 {
 }
 
 // ------------------------------------------------------------------------------------------------
-// twin of AttrSurface.Render (only used by the random driver; Trace_Attr.tla re-renders the
+// twin of AttrNormSurface.Render (only used by the random driver; Trace_Attr.tla re-renders the
 // recorded abstract document with the specification's operator and compares the texts)
 
 fn name_of(v: &J) -> String {
